@@ -81,3 +81,24 @@ PROPS["C04"] = {
             "every unmake, and all explored keys are grouped by position identity (same identity must give the same key, across games and transpositions)",
     "assumptions": [],
 }
+
+def S(name, mode, count, maxdepth, shards=16, extra=None):
+    return {"name": name, "stream": "search", "driver": "search", "shards": shards,
+            "args": ["--mode", mode, "--count", count, "--maxdepth", maxdepth] + (extra or [])}
+
+SEARCH_RULE = ("search cases = (position with its game history: 40 seed FENs + positions reached by random play incl. deliberate repetitions) x depth x "
+               "(node budget | stop-at-poll k | none) x cache mode (fresh | kept from earlier searches | neutralised); each case runs the real Search::search "
+               "in-process and is compared line by line with the executable Lean search model (info lines, bestmove, every cache insert with node counter / flag / ply, "
+               "node count, seldepth, poll count, cache size and checksum) and with the property's own oracle; distinct_nontrivial = distinct case descriptors, counted by the driver")
+
+PROPS["C14"] = {
+    "module": "RCE.Props.C14",
+    "theorems": ["RCE.Props.C14.info_depths", "RCE.Props.C14.depth_limit_complete", "RCE.Props.C14.pv_legal"],
+    "streams": {"quick": [S("search-plain", "plain", 48, 3), S("search-budget", "budget", 16, 2, extra=["--step", 5])],
+                "thorough": [S("search-plain", "plain", 400, 4), S("search-budget", "budget", 64, 3, extra=["--step", 11]), S("search-keep", "keep", 200, 4)]},
+    "eval_key": "cases", "distinct_key": "distinct_cases",
+    "rule": SEARCH_RULE + "; for C14: every info line is checked against the UCI token grammar, depths must be 1,2,3,... in order, every PV is replayed move by move "
+            "on the rules spec, and an unlimited depth-N search must report all N depths",
+    "assumptions": ["pv_legal assumes KeyMoves (positions with equal 64-bit keys generate the same moves) and that the initial cache holds generated moves",
+                    "time / nps tokens are clock dependent: checked for syntax on the real binary's output, not modelled"],
+}
